@@ -152,6 +152,9 @@ func (w *c16Worker) kill() {
 }
 
 func runC16(op string, in []string) string {
+	if op == "reach" { // <n>: the generator's reach self-test (clipreach.go), judged by the driver
+		return in[0]
+	}
 	if c16NoWorker {
 		return c16Call(op, in)
 	}
@@ -732,8 +735,99 @@ func c16SimpleRing(r *rand.Rand, b c16Box, mode int) []orb.Point {
 	return nil
 }
 
+// c16CornerDraws: edges drawn per shard by c16GenCorner (the clamp arm of clip.line is taken by about one in a
+// thousand of them: see clipreach.go).
+const c16CornerDraws = 25000
+
+// c16GenCorner: the edge-through-corner family.  A general-position box; a ring EDGE from a point inside the
+// box (or beside it, so that the edge crosses the whole box) aimed exactly at a corner and continued beyond it,
+// the far end computed in float64 as corner + t*(corner - start): the exact line misses the corner by rounding
+// only, which is what makes clip.line clip the leaving end twice and, when it is still a hair outside, snap it
+// with clampToBound — the end point smartWrap then classifies by pointSide.  The edge is closed to a triangle
+// or a quadrilateral by vertices beside the box (simple, wound as requested or the other way for a hole of a
+// large outer ring; both traversal directions of the edge occur).  c16CornerDraws edges are drawn per shard;
+// the rings on which a replica of the open-mode loop (clipReachClamp) takes the clamp arm, and one in eighty of
+// the others, become `ring` / `poly` / `geom` / `aring` cases.  Every reaching case is followed by a
+// `reach 1` line (tag `reach-clamp`); a shard with no reaching case emits `reach 0`, which the driver
+// answers `bad reach-gate clamp-arm-unreached`.
+func c16GenCorner(c *Ctx, r *rand.Rand) {
+	reached := 0
+	for k := 0; k < c16CornerDraws; k++ {
+		var bb c16Box
+		switch r.Intn(4) {
+		case 0: // around the origin
+			bb = c16Box{-0.5 - r.Float64()*2, -0.5 - r.Float64()*2, 0.5 + r.Float64()*2, 0.5 + r.Float64()*2}
+		case 1: // larger magnitudes
+			x0, y0 := (r.Float64()*2-1)*100, (r.Float64()*2-1)*100
+			bb = c16Box{x0, y0, x0 + 1 + r.Float64()*50, y0 + 1 + r.Float64()*50}
+		default:
+			bb = c16GenBox(r, 2)
+		}
+		box := bb.bound()
+		w, h := bb.x1-bb.x0, bb.y1-bb.y0
+		start, far, corner := clipCornerShot(r, box, r.Intn(3) != 0)
+		// a third vertex beside the box: mirrored across the corner on one axis
+		third := orb.Point{2*corner[0] - start[0] + (r.Float64()-0.5)*w*0.5, start[1] + (r.Float64()-0.5)*h*0.5}
+		if r.Intn(2) == 0 {
+			third = orb.Point{start[0] + (r.Float64()-0.5)*w*0.5, 2*corner[1] - start[1] + (r.Float64()-0.5)*h*0.5}
+		}
+		ps := []orb.Point{start, far, third}
+		if r.Intn(3) == 0 { // a fourth vertex between third and start
+			q := orb.Point{(third[0]+start[0])/2 + (r.Float64()-0.5)*w*0.3, (third[1]+start[1])/2 + (r.Float64()-0.5)*h*0.3}
+			if ps4 := append(append([]orb.Point{}, ps...), q); c16Simple(ps4) {
+				ps = ps4
+			}
+		}
+		if c16Area2(ps) == 0 || !c16Simple(ps) {
+			continue
+		}
+		o := 1 - 2*r.Intn(2)
+		hole := r.Intn(5) == 0
+		wo := o
+		if hole {
+			wo = -o
+		}
+		ring := c16Close(c16Rotate(c16Wind(ps, wo), r.Intn(len(ps))))
+		a, b := clipReachClamp(box, ring, true)
+		hit := a+b > 0
+		if !hit && k%80 != 0 {
+			continue
+		}
+		qq := spts(c16Samples(r, bb, 16))
+		if hole {
+			// a large outer ring around the box and the hole
+			minx, miny, maxx, maxy := bb.x0, bb.y0, bb.x1, bb.y1
+			for _, p := range ps {
+				minx, maxx = math.Min(minx, p[0]), math.Max(maxx, p[0])
+				miny, maxy = math.Min(miny, p[1]), math.Max(maxy, p[1])
+			}
+			m := 0.5 + r.Float64()
+			outer := c16Close(c16Rotate(c16Wind([]orb.Point{{minx - m*w, miny - m*h}, {maxx + m*w, miny - m*h}, {maxx + m*w, maxy + m*h}, {minx - m*w, maxy + m*h}}, o), r.Intn(4)))
+			c.Case("poly", fmt.Sprintf("%d %s %s %s", o, bb, gs(orb.Polygon{outer, ring}), qq))
+		} else {
+			c.Case("ring", fmt.Sprintf("%d %s %s %s", o, bb, spts(ring), qq))
+			switch r.Intn(4) {
+			case 0:
+				c.Case("poly", fmt.Sprintf("%d %s %s %s", o, bb, gs(orb.Polygon{ring}), qq))
+			case 1:
+				c.Case("geom", fmt.Sprintf("%d %s %s", o, bb, gs(ring)))
+			case 2:
+				c.Case("aring", fmt.Sprintf("%d %s %s", o, bb, spts(ring)))
+			}
+		}
+		if hit {
+			reached++
+			c.Case("reach", "1")
+		}
+	}
+	if reached == 0 {
+		c.Case("reach", "0")
+	}
+}
+
 func genC16(c *Ctx) {
 	r := c.Rng
+	c16GenCorner(c, r)
 	oTok := func(o int) string { return fmt.Sprint(o) }
 
 	// ---- exhaustive: the nexts / pointFor tables through smartclip.Ring (all 8x8 code pairs, both orientations,
